@@ -259,27 +259,42 @@ func nativeReplay(e *engine, h *harnessSpec, v *violation, cexPath string) (stri
 		return "not-applicable", ""
 	}
 	rel := strings.TrimPrefix(h.pkg, modulePath+"/")
-	hdir := filepath.Join(verifRoot, "harness", rel)
 	scratch := filepath.Join(verifRoot, "out", "replay-"+fmt.Sprint(os.Getpid()))
 	os.MkdirAll(scratch, 0o755)
 	defer os.RemoveAll(scratch)
 	replace := map[string]string{}
-	ents, _ := os.ReadDir(hdir)
+	shim, _ := os.ReadFile(filepath.Join(verifRoot, "harness", "shim.go.tmpl"))
 	pkgName := ""
-	for _, ent := range ents {
-		if strings.HasSuffix(ent.Name(), ".go") {
-			src := filepath.Join(hdir, ent.Name())
-			replace[filepath.Join(repoRoot, rel, ent.Name())] = src
-			if pkgName == "" {
-				b, _ := os.ReadFile(src)
-				pkgName = packageNameOf(b)
+	hroot := filepath.Join(verifRoot, "harness")
+	n := 0
+	filepath.Walk(hroot, func(path string, info os.FileInfo, err error) error {
+		if err != nil || !info.IsDir() || path == hroot {
+			return nil
+		}
+		r, _ := filepath.Rel(hroot, path)
+		ents, _ := os.ReadDir(path)
+		pn := ""
+		for _, ent := range ents {
+			if strings.HasSuffix(ent.Name(), ".go") {
+				src := filepath.Join(path, ent.Name())
+				replace[filepath.Join(repoRoot, r, ent.Name())] = src
+				if pn == "" {
+					b, _ := os.ReadFile(src)
+					pn = packageNameOf(b)
+				}
 			}
 		}
-	}
-	shim, _ := os.ReadFile(filepath.Join(verifRoot, "harness", "shim.go.tmpl"))
-	shimPath := filepath.Join(scratch, "zz_verif_shim.go")
-	os.WriteFile(shimPath, []byte(strings.ReplaceAll(string(shim), "PACKAGE", pkgName)), 0o644)
-	replace[filepath.Join(repoRoot, rel, "zz_verif_shim.go")] = shimPath
+		if pn != "" {
+			n++
+			sp := filepath.Join(scratch, fmt.Sprintf("shim%d.go", n))
+			os.WriteFile(sp, []byte(strings.ReplaceAll(string(shim), "PACKAGE", pn)), 0o644)
+			replace[filepath.Join(repoRoot, r, "zz_verif_shim.go")] = sp
+			if r == rel {
+				pkgName = pn
+			}
+		}
+		return nil
+	})
 	test := fmt.Sprintf(`//go:build verif
 
 package %s
